@@ -5208,6 +5208,45 @@ let type_expr = function
 | Some n -> Ident (n, N0, false)
 | None -> Null
 
+(** val num_to_string : str -> str **)
+
+let num_to_string v =
+  match split_on (Npos (Coq_xO (Coq_xI (Coq_xI (Coq_xI (Coq_xO Coq_xH)))))) v with
+  | [] -> v
+  | i :: l ->
+    (match l with
+     | [] -> v
+     | s :: l0 ->
+       (match s with
+        | [] -> v
+        | n :: l1 ->
+          (match n with
+           | N0 -> v
+           | Npos p ->
+             (match p with
+              | Coq_xO p0 ->
+                (match p0 with
+                 | Coq_xO p1 ->
+                   (match p1 with
+                    | Coq_xO p2 ->
+                      (match p2 with
+                       | Coq_xO p3 ->
+                         (match p3 with
+                          | Coq_xI p4 ->
+                            (match p4 with
+                             | Coq_xH ->
+                               (match l1 with
+                                | [] -> (match l0 with
+                                         | [] -> i
+                                         | _ :: _ -> v)
+                                | _ :: _ -> v)
+                             | _ -> v)
+                          | _ -> v)
+                       | _ -> v)
+                    | _ -> v)
+                 | _ -> v)
+              | _ -> v))))
+
 (** val default_matches : node -> node -> bool **)
 
 let default_matches name key =
@@ -5216,9 +5255,15 @@ let default_matches name key =
      | IdName a -> (match key with
                     | Str (b, _) -> str_eqb a b
                     | _ -> false)
-     | Str (a, _) -> (match key with
-                      | IdName b -> str_eqb a b
-                      | _ -> false)
+     | Str (b, _) ->
+       (match key with
+        | IdName b0 -> str_eqb b b0
+        | Num (n, _) -> str_eqb (num_to_string n) b
+        | _ -> false)
+     | Num (n, _) ->
+       (match key with
+        | Str (b, _) -> str_eqb (num_to_string n) b
+        | _ -> false)
      | _ -> false)
 
 (** val find_default : (node * node) list -> node -> node option **)
